@@ -65,8 +65,36 @@ def regen_problems(p):
     return out
 
 
+def attr_recall(p, m=None):
+    """the arrays the accessors hand out are the caller's: after the caller overwrote what p.exponents, p.coefficients,
+    p.todict() and p.indeterminants returned, p is still the polynomial it was and the accessors answer as before
+    (p.values is p's own storage by design and is left alone)"""
+    if not p.size:
+        return []
+    from ..snap import scribble
+    m = alpha(p) if m is None else m
+    try:
+        e0 = numpy.asarray(p.exponents).tolist()
+        c0 = [numpy.array(c).tolist() for c in p.coefficients]
+        handed = [p.exponents, list(p.coefficients), list(p.todict().values()), p.indeterminants]
+        if not scribble(handed):
+            return []
+        w = wellformed(p)
+        if w:
+            return [f"after the caller overwrote the arrays handed out by the accessors, p is ill-formed: {w}"]
+        if numpy.asarray(p.exponents).tolist() != e0:
+            return [f"p.exponents answers {numpy.asarray(p.exponents).tolist()} after the caller overwrote the array an earlier p.exponents returned (was {e0})"]
+        if [numpy.array(c).tolist() for c in p.coefficients] != c0:
+            return ["p.coefficients changed after the caller overwrote the arrays an earlier access returned"]
+        if alpha(p) != m:
+            return [f"p changed after the caller overwrote the arrays handed out by its accessors: {alpha(p)!r} != {m!r}"]
+    except Exception as err:  # noqa: BLE001
+        return [f"accessors after the caller overwrote their earlier results: {type(err).__name__}: {err}"]
+    return []
+
+
 def extra_check(p):
-    return wellformed(p) + regen_problems(p)
+    return wellformed(p) + regen_problems(p) + attr_recall(p)
 
 
 # ---- (b) attribute triples -------------------------------------------------------------------
